@@ -21,12 +21,12 @@ BoundarySeeds == { B("0"), B("1"), B("2"), B("12345"), B("8589934591"), B("85899
                    B("8796093022208"), B("11081109438221"), B("11081109438222"), B("11081109438223"),
                    B("17592186044416"), B("9223372036854775808"), B("18446744073709551615"),
                    B("4294967296"), B("5160"), B("5161") }
-Signs == {"pos", "zero", "neg"}
-ArgOf(sg) == CASE sg = "pos" -> NOne [] sg = "zero" -> NZero [] sg = "neg" -> NNeg(NOne)
+Signs == {"pos", "zero", "neg"}          \* in every position of a sequence
+Extras == ArgNames \ Signs              \* fractional, huge, signed-zero and non-finite arguments: at most one per sequence, in any position
 
-VARIABLES seed0, seed, hist, nums, pos
-vars == <<seed0, seed, hist, nums, pos>>
-RngView == <<seed0, seed, Len(hist)>>
+VARIABLES seed0, seed, hist, nums, pos, ex, cls
+vars == <<seed0, seed, hist, nums, pos, ex, cls>>
+RngView == <<seed0, seed, Len(hist), ex, cls>>
 
 (***************************************************************************)
 (* An independent definition of the k-th state: 33-bit numbers as three    *)
@@ -53,20 +53,24 @@ ToLimbs11(s) ==
 
 Init == /\ seed0 \in BoundarySeeds
         /\ seed = SeedOf(BNFromDigits(seed0))
-        /\ hist = <<>> /\ nums = <<>> /\ pos = 0
+        /\ hist = <<>> /\ nums = <<>> /\ pos = 0 /\ ex = 0 /\ cls = TRUE
 
 Call(sg) ==
     /\ Len(hist) < MaxCalls
+    /\ (sg \in Extras => ex = 0)
+    /\ ex' = IF sg \in Extras THEN 1 ELSE ex
     /\ LET r == Rnd(seed, ArgOf(sg))
        IN  /\ seed' = r.seed
            /\ hist' = Append(hist, sg)
            /\ nums' = Append(nums, IF r.e = "" THEN BNDigits(r.seed) ELSE B("error"))
-           /\ pos' = IF sg = "pos" THEN pos + 1 ELSE pos
+           /\ pos' = IF ArgAdvances(sg) THEN pos + 1 ELSE pos
+           /\ cls' = ((r.e = "unimplemented") = ArgFails(sg) /\ (r.e \in {"", "unimplemented"}) /\ (ArgRepeats(sg) => r.seed = seed))
            /\ UNCHANGED seed0
            /\ (EmitRows => PrintT(<<"ROW", ToJson([seed |-> seed0, signs |-> hist', states |-> nums'])>>))
 
-Next == \E sg \in Signs : Call(sg)
+Next == \E sg \in ArgNames : Call(sg)
 
 InRange == SeedInRange(seed)
+Classes == cls         \* the last call failed / repeated / advanced as the sign of its argument says
 Pure == ToLimbs11(seed) = Iter11(ToLimbs11(SeedOf(BNFromDigits(seed0))), pos)
 =============================================================================
